@@ -13,7 +13,16 @@ EXPLANATION = (
     "tag/projection functions, types an uninterpreted sort (any nesting); list loops use the "
     "index-recursive ghost function ListOk; recursion is proved terminating by the type rank. The "
     "built-in scalar input coercers are verified against their domains (shared with C16), with "
-    "exceptional postconditions. Stage 1 restricts T to types without input objects (NoObj). "
+    "exceptional postconditions. The equivalences with Valid are claimed for types without input "
+    "objects (NoObj); for input object types both functions are verified for their exception "
+    "frame, the operands of every recursive call (the field's own type and value), and the "
+    "required-field decision: a field without a defined value makes the value invalid / is "
+    "reported exactly when it is required, and every field that has a value (None included) is "
+    "validated against its type. The literal coercers of the built-in scalars accept exactly "
+    "the literals of their domain. coerce_default_value's memo is verified against a "
+    "specification function (a memo read for another type than it was filled for fails). "
+    "get_variable_values returns the values only if nothing was reported, else a non-empty error "
+    "list bounded by the limit (callback invariant by rely/guarantee). "
     "Literal pair (all input types, valid schema assumed): coerce_input_literal and "
     "validate_input_literal_impl are verified to be total (no exception but a user out_type's / "
     "the callback's) and to take the same decisions on the cases a one-sided edit breaks: a null "
@@ -22,7 +31,9 @@ EXPLANATION = (
     "value_to_literal: every provided field of an input object (None included) gets an entry in "
     "the literal; only Undefined ones are left out (per-iteration contract of the field loop).")
 UNVERIFIED = [
-    "the input-object branch of the value pair (unknown/required/default fields, OneOf) - stage 2",
+    "the input-object branch of the value pair beyond the decisions listed (unknown fields, OneOf, Valid/Conf for input objects); termination of the recursion through recursive input objects",
+    "purity of coerce_input_literal / coerce_input_value (assumed in the memo proof of coerce_default_value)",
+    "coerce_variable_values (assumed: only the callback's GraphQLError leaves it)",
     "full agreement (iff) of the literal pair beyond the listed decisions; ValuesOfCorrectTypeRule",
     "value_to_literal round trip, replace_variables, get_variable_values / coerce_variable_values",
     "GraphQLEnumType.coerce_input_value (modelled as a leaf coercer function)",
@@ -89,11 +100,50 @@ def lift(model, req):
     return {"confirmed": False}
 
 
+def memo_writers_obligation():
+    """The memo invariant of GraphQLDefaultInput (contracts/literals.py, MemoOK) is assumed at the
+    callers of coerce_default_value as a class invariant: it is set up by the constructor and kept
+    by coerce_default_value.  That nobody else stores the field is decided here, over every module of
+    the current tree (finite, syntactic)."""
+    import ast
+    import os
+    from pyvc.world import SRC
+    allowed = {("graphql/utilities/coerce_input_value.py", "coerce_default_value"),
+               ("graphql/type/definition.py", "__init__")}
+    writers = []
+    for root, _dirs, files in os.walk(os.path.join(SRC, "graphql")):
+        for f in files:
+            if not f.endswith(".py"):
+                continue
+            path = os.path.join(root, f)
+            rel = os.path.relpath(path, SRC)
+            tree = ast.parse(open(path, encoding="utf-8").read())
+            for fn in ast.walk(tree):
+                if not isinstance(fn, (ast.FunctionDef, ast.AsyncFunctionDef)):
+                    continue
+                for n in ast.walk(fn):
+                    if isinstance(n, ast.Attribute) and n.attr == "_memoized_coerced_value" \
+                            and isinstance(n.ctx, (ast.Store, ast.Del)):
+                        writers.append((rel, fn.name))
+                    if isinstance(n, ast.Call) and isinstance(n.func, ast.Name) \
+                            and n.func.id == "setattr" and any(
+                                isinstance(a, ast.Constant) and a.value == "_memoized_coerced_value"
+                                for a in n.args):
+                        writers.append((rel, fn.name))
+    bad = sorted(set(writers) - allowed)
+    return {"func": "graphql.type.definition.GraphQLDefaultInput", "kind": "FRAME",
+            "text": "_memoized_coerced_value is stored only by its constructor and coerce_default_value",
+            "status": "discharged" if not bad else "refuted", "backend": "finite",
+            "detail": f"writers: {sorted(set(writers))}",
+            "model": None if not bad else {"other_writers": bad}}
+
+
 def extra_obligations(world, tier, seed):
     import time
     import z3
     from theories import inputs
     out = gtypes_lemmas()
+    out.append(memo_writers_obligation())
     for name, f in inputs.REC.lemmas():
         s = z3.Solver()
         s.set("timeout", 20000)
